@@ -48,11 +48,13 @@ pub struct RunCfg {
     /// stop after static checking
     pub check_only: bool,
     pub allow_process: bool,
+    /// recompute the reachability mask from the facts (public analysis API)
+    pub want_mask: bool,
 }
 
 impl Default for RunCfg {
     fn default() -> Self {
-        Self { frame: true, plan: true, arena_mib: 256, trace: false, check_only: false, allow_process: false }
+        Self { frame: true, plan: true, arena_mib: 256, trace: false, check_only: false, allow_process: false, want_mask: false }
     }
 }
 
@@ -72,6 +74,11 @@ pub struct Real {
     pub plan_fns: usize,
     pub plan_present: bool,
     pub ran: bool,
+    /// statement id -> reachable, as computed by analysis::reachability
+    pub reachable_mask: Option<Vec<bool>>,
+    /// statement ids the plan marks removable
+    pub plan_stmt_ids: Vec<u32>,
+    pub warnings: Vec<(String, usize, usize)>,
 }
 
 pub const MIB: usize = 1024 * 1024;
@@ -100,6 +107,23 @@ pub fn run_source(src: &str, cfg: RunCfg) -> Real {
         return out;
     }
     out.accepted = true;
+    out.warnings = resolver
+        .errors
+        .diagnostics
+        .iter()
+        .filter(|d| d.severity == Severity::Warning)
+        .map(|d| (d.message.to_string(), d.span.start, d.span.end))
+        .collect();
+    if cfg.want_mask && resolver.optimization_plan.is_some() {
+        let counts = naijascript::analysis::cfg::count_program(&resolver.facts, &res_arena);
+        let program =
+            naijascript::analysis::cfg::build_program_with_counts(&resolver.facts, &counts, &res_arena);
+        let mask = naijascript::analysis::reachability::reachable_statement_mask(&program, &res_arena);
+        out.reachable_mask = Some(mask.iter().copied().collect());
+    }
+    if let Some(plan) = resolver.optimization_plan.as_ref() {
+        out.plan_stmt_ids = plan.removable_stmts.iter().map(|s| s.0).collect();
+    }
     if cfg.check_only {
         out.ending = "checked".into();
         if let Some(plan) = resolver.optimization_plan.as_ref() {
